@@ -27,7 +27,7 @@ FULL = r'''
 def plan(tier, seed):
     p = Plan()
     thorough = tier == "thorough"
-    g = 6 if thorough else 2
+    g = 8 if thorough else 4
     pts = CV.grid(g)
     chunk = 64
     txt = CV.PRELUDE + FULL
